@@ -65,6 +65,21 @@ func c05Sources() []srcVariant {
 			s := &space.Decl{Pkg: "in", Name: "S" + id, Under: space.St(f("B", tStr), f("Name", tStr), f("N", space.P(space.N(n))))}
 			return s, []*space.Decl{n, m}
 		}},
+		// unexported members behind value / pointer hops (the source package is not the output package)
+		nested("nested-unexported", 0, f("a", tInt), f("Other", tInt)),
+		nested("nested-ptr-unexported", 1, f("a", tInt), f("Other", tInt)),
+		srcVariant{"nested-2ptr-unexported", func(id string) (*space.Decl, []*space.Decl) {
+			m := &space.Decl{Pkg: "in", Name: "M" + id, Under: space.St(f("a", tInt), f("Other", tInt))}
+			n := &space.Decl{Pkg: "in", Name: "N" + id, Under: space.St(f("M", space.P(space.N(m))), f("m", space.P(space.N(m))))}
+			s := &space.Decl{Pkg: "in", Name: "S" + id, Under: space.St(f("B", tStr), f("Name", tStr), f("N", space.P(space.N(n))))}
+			return s, []*space.Decl{n, m}
+		}},
+		srcVariant{"nested-ptr-unexported-method", func(id string) (*space.Decl, []*space.Decl) {
+			n := &space.Decl{Pkg: "in", Name: "N" + id, Under: space.St(f("Other", tInt)),
+				Methods: []space.Method{{Name: "a", Result: tInt, Body: "return r.Other * 10"}}}
+			s := &space.Decl{Pkg: "in", Name: "S" + id, Under: space.St(f("B", tStr), f("Name", tStr), f("N", space.P(space.N(n))))}
+			return s, []*space.Decl{n}
+		}},
 		mk("dropped", f("B", tStr), f("Name", tStr)),
 		method("method", false, false),
 		method("method-ptr-recv", true, false),
@@ -125,6 +140,7 @@ var c05Menu = []string{
 	"autoMap N", "autoMap N.M", "autoMap Nope",
 	"matchIgnoreCase", "ignoreMissing", "ignoreUnexported",
 	"map Nope A", "map B.X A", "map B A",
+	"map N.a A", "map N.M.a A", "map N.m.Other A", "map N.Other A",
 	"map . W", "map . A", "ignore A D", "ignore W A", "ignore A B Name", "map N W",
 }
 
@@ -247,6 +263,79 @@ func C05Scenarios(tier string) []*Scenario {
 					// method sources with error need an error result on the method to be usable; covered in C07.
 					out = append(out, sc)
 				}
+			}
+		}
+	}
+	out = append(out, samePackageScenarios(&n)...)
+	return out
+}
+
+// samePackageScenarios: the generated code lives in the package of the target struct (goverter:variables in package
+// conv, target declared in conv), so unexported target fields are reachable: ignoreUnexported / ignore / ignoreMissing must
+// still leave them alone, and without such a setting they need a source like any other field.
+func samePackageScenarios(n *int) []*Scenario {
+	var out []*Scenario
+	menu := []string{"ignoreUnexported", "ignore x", "ignoreMissing", "matchIgnoreCase", "map A x", "map X x", "ignore A"}
+	type srcKind struct {
+		name  string
+		local bool
+		fs    []space.Field
+	}
+	srcs := []srcKind{
+		{"other-package-source", false, []space.Field{f("A", tInt), f("B", tStr), f("Name", tStr)}},
+		{"other-package-source-with-X", false, []space.Field{f("A", tInt), f("B", tStr), f("Name", tStr), f("X", tInt)}},
+		{"same-package-source-with-x", true, []space.Field{f("A", tInt), f("B", tStr), f("Name", tStr), f("x", tInt)}},
+	}
+	for _, sk := range srcs {
+		for _, place := range []string{"direct", "reused-by-slice", "converter-level"} {
+			for _, lines := range lineSubsets(menu, 2) {
+				*n++
+				id := fmt.Sprintf("F%05d", *n)
+				sc := &Scenario{ID: "Q" + id, PropGen: "C05", PropVal: "C05", Test: "Convert" + id, Variables: true, Funcs: map[string]string{},
+					Desc: map[string]any{"class": fmt.Sprintf("same-package-output src=%s place=%s", sk.name, place), "lines": lines}}
+				td := &space.Decl{Pkg: "conv", Name: "LT" + id, Under: space.St(f("A", tInt), f("B", tStr), f("Name", tStr), f("x", tInt))}
+				sd := &space.Decl{Pkg: "in", Name: "S" + id, Under: space.St(sk.fs...)}
+				if sk.local {
+					sd.Pkg, sd.Name = "conv", "LS"+id
+					sc.FuncsSrc += sd.Source()
+				} else {
+					sc.Decls = append(sc.Decls, sd)
+				}
+				sc.FuncsSrc += td.Source()
+				sT, tT := space.N(sd), space.N(td)
+				conv := &model.Converter{OutPkg: "conv", LitPkg: "conv"}
+				sc.Conv = conv
+				add := func(name string, src, dst *space.Ty, ls []string) {
+					mm := &model.Method{Name: name, Src: src, Dst: dst, Set: conv.Set, Fields: map[string]*model.FieldCfg{}}
+					applyMethodLines(mm, ls)
+					conv.Methods = append(conv.Methods, mm)
+					sc.Methods = append(sc.Methods, &ScMethod{Name: name, Params: "source " + src.Go("conv"), Result: dst.Go("conv"), Lines: ls, M: mm})
+				}
+				switch place {
+				case "direct":
+					add("Convert"+id, sT, tT, lines)
+				case "reused-by-slice":
+					add("Convert"+id, space.S(sT), space.S(tT), nil)
+					add("Item"+id, sT, tT, lines)
+				case "converter-level":
+					// only the inheritable settings can be written on the variables block
+					var cl, ml []string
+					for _, l := range lines {
+						if strings.HasPrefix(l, "ignoreUnexported") || strings.HasPrefix(l, "ignoreMissing") || strings.HasPrefix(l, "matchIgnoreCase") {
+							cl = append(cl, l)
+						} else {
+							ml = append(ml, l)
+						}
+					}
+					sc.ConvLines = cl
+					tmp := &model.Method{Fields: map[string]*model.FieldCfg{}}
+					applyMethodLines(tmp, cl)
+					conv.Set = tmp.Set
+					add("Convert"+id, space.S(sT), space.S(tT), nil)
+					add("Item"+id, sT, tT, ml)
+				}
+				sc.Mode = "value,nomutate"
+				out = append(out, sc)
 			}
 		}
 	}
